@@ -13,6 +13,7 @@ import VhostModel.Drv.BeSrv
 import VhostModel.Drv.Gpu
 import VhostModel.Drv.Ring
 import VhostModel.Drv.Worker
+import VhostModel.Drv.Shutdown
 /-! Model driver: one scenario per input line, one prediction per output line. -/
 
 def dispatch (line : String) : String :=
@@ -33,6 +34,7 @@ def dispatch (line : String) : String :=
   | "gpu" :: _ => Drv.Gpu.run toks
   | "ring" :: _ => Drv.Ring.run toks
   | "worker" :: _ => Drv.Worker.run toks
+  | "shutdown" :: _ => Drv.Shutdown.run toks
   | _ => "bad-family"
 
 partial def loop (h : IO.FS.Stream) (out : IO.FS.Stream) : IO Unit := do
